@@ -32,8 +32,8 @@ type c08Result struct {
 	ID       int    `json:"id"`
 	Class    string `json:"class"`
 	Out      int64  `json:"out"`
-	Alloc    uint64 `json:"alloc"`   // TotalAlloc delta
-	HeapPeak uint64 `json:"heap"`    // HeapSys after
+	Alloc    uint64 `json:"alloc"` // TotalAlloc delta
+	HeapPeak uint64 `json:"heap"`  // HeapSys after
 	Millis   int64  `json:"ms"`
 	Panic    string `json:"panic,omitempty"`
 }
@@ -175,11 +175,11 @@ func c08Hostile(rng *rand.Rand, quick bool) []c08Input {
 	}
 	{ // big MSKIPLEN with no data
 		w := gen.BitW{}
-		w.Bits(0, 1)   // WBITS 16
-		w.Bits(0, 1)   // ISLAST 0
-		w.Bits(3, 2)   // MNIBBLES 0
-		w.Bits(0, 1)   // reserved
-		w.Bits(3, 2)   // MSKIPBYTES 3
+		w.Bits(0, 1) // WBITS 16
+		w.Bits(0, 1) // ISLAST 0
+		w.Bits(3, 2) // MNIBBLES 0
+		w.Bits(0, 1) // reserved
+		w.Bits(3, 2) // MSKIPBYTES 3
 		w.Bits(0xffffff, 24)
 		w.Align()
 		add("brotli", "huge-skip", w.Buf)
